@@ -17,6 +17,7 @@ C={
  "C11":("4.11","E1-enum","Nibble-pattern scalar alphabet (every radix-16 digit value at every position, carry runs) and boundary scalars on the base-point fast path vs the RFC 7748 ladder; low-order, non-canonical and structured u values on the generic path; on 3 (thorough 7) configurations.",T),
  "C12":("4.12","E1-enum","Seeds of a 6-bit (thorough 12-bit) subspace through both conversion routes, and an exhaustive 13-bit (16-bit) y scan plus boundary strings for the public-key conversion, vs (1+y)/(1-y) from the model.",T),
  "C18":("4.18","E1-enum","Dense per-limb alphabets (full product over all limbs) for reduced elements and caller-reachable unreduced classes derived by running the real add/sub/after-basic/neg operations; every binary op on every ordered pair, Mul on all class pairs, unary ops, chains, serialisation of every representation; both limb layouts and a native 32-bit target; exact residues and limb-bound postconditions vs math/big.",T),
+ "C19":("4.19","E1-enum","Reduction on k*L+delta for every quotient size and on word-class strings, Add/Mul on every ordered pair of a ~400 (thorough ~800) element boundary alphabet with canonical-limb postcondition, radix-16 recoding on every nibble pattern below 2^255 and sliding-window recodings (w=5,7) on d*2^i / run / periodic alphabets; both limb layouts and GOARCH=386; vs math/big.",T),
  "C13":("4.13","E1-enum + E2-seq","Exhaustive shape enumeration (lengths, nil, selectors, counts, malformed entry kinds x positions, aliasing) under recover with canary-guarded inputs, and all entropy-reader answer sequences with <=2 deviations over up to 3 chunks.","bounded exhaustive enumeration of input shapes and environment answers (deviation-bounded) against a contract table"),
  "C14":("4.14","E2-seq + E1-enum","All reader behaviours of a delivery-pattern x failure-point x failure-kind alphabet for GenerateKey; every single-bit flip for Equal; accessor aliasing on 64 seeds.","bounded exhaustive enumeration of environment answers and input perturbations"),
 }
